@@ -995,6 +995,18 @@ def account(ctx, dist, h, r):
 
 def judge(ctx, h, r, impl, mexe, wd, reported, what, small=None):
     """verdict protocol for one (batched) history"""
+    if small is not None:
+        first = r['mism'][0][0] if r['mism'] else (r['oracle'][0][1] if r['oracle'] else r['ub_at'])
+        if first is not None:
+            acc = 0
+            for hh in small:
+                if acc <= first < acc + len(hh):
+                    h1 = dict(nprocs=1, nslots=1, ops=hh)
+                    r1 = run_history(h1, impl, mexe, wd, 'single')
+                    if r1['mism'] or r1['oracle'] or r1['ub_at'] is not None or r1['crash'] or r1['hang']:
+                        return judge(ctx, h1, r1, impl, mexe, wd, reported, what)
+                    break
+                acc += len(hh)
     ops = h['ops']
     rep = dict(nprocs=h['nprocs'], nslots=h['nslots'], ops=json_ops(ops))
     def shrunk(pred):
